@@ -61,11 +61,13 @@ pub struct Driver {
     pub tasks: Vec<Task>,
     pub steps: u64,
     clock: Arc<AtomicU64>,
+    /// tasks that are not scheduled at all for now (a node that has stopped making progress while its sockets stay up)
+    pub frozen: std::collections::BTreeSet<usize>,
 }
 
 impl Driver {
     pub fn new() -> Self {
-        Driver { tasks: Vec::new(), steps: 0, clock: Arc::new(AtomicU64::new(0)) }
+        Driver { tasks: Vec::new(), steps: 0, clock: Arc::new(AtomicU64::new(0)), frozen: Default::default() }
     }
 
     pub fn spawn(&mut self, name: impl Into<String>, fut: impl Future<Output = ()> + Send + 'static) -> usize {
@@ -88,7 +90,7 @@ impl Driver {
         self.tasks
             .iter()
             .enumerate()
-            .filter(|(_, t)| !t.done() && t.flag.woken.load(Ordering::SeqCst))
+            .filter(|(i, t)| !t.done() && t.flag.woken.load(Ordering::SeqCst) && !self.frozen.contains(i))
             .map(|(i, _)| i)
             .collect()
     }
@@ -99,7 +101,7 @@ impl Driver {
             .tasks
             .iter()
             .enumerate()
-            .filter(|(_, t)| !t.done() && t.flag.woken.load(Ordering::SeqCst))
+            .filter(|(i, t)| !t.done() && t.flag.woken.load(Ordering::SeqCst) && !self.frozen.contains(i))
             .map(|(i, t)| (t.flag.seq.load(Ordering::SeqCst), i))
             .collect();
         v.sort();
